@@ -148,13 +148,23 @@ impl HtmlFilterBodyAction {
     }
 
     pub fn end(&mut self) -> Vec<u8> {
-        let mut to_return = self.last_buffer.clone();
+        // buffers are linked from the innermost element to the outermost one, the stream order is the reverse
+        let mut buffers = Vec::new();
         let mut buffer = self.current_buffer.as_ref();
 
         while buffer.is_some() {
-            to_return.extend_from_slice(buffer.unwrap().buffer.as_bytes());
+            buffers.push(buffer.unwrap().buffer.as_bytes());
             buffer = buffer.unwrap().previous.as_ref();
         }
+
+        let mut to_return = Vec::new();
+
+        while let Some(bytes) = buffers.pop() {
+            to_return.extend_from_slice(bytes);
+        }
+
+        // bytes not parsed yet come after everything that has been buffered
+        to_return.extend_from_slice(self.last_buffer.as_slice());
 
         to_return
     }
